@@ -195,4 +195,17 @@ theorem add_spec (s : List Ival) (y : Ival) (hs : IvSorted s) :
       omega
     rw [this, Bool.or_false]
 
+/-- adding any sequence of ranges: invariant kept, members = union of the ranges -/
+theorem addAll_spec (ys : List Ival) : ∀ (s : List Ival), IvSorted s →
+    IvSorted (ys.foldl IntervalSet.add s) ∧
+    ∀ x, IntervalSet.memPoint (ys.foldl IntervalSet.add s) x = (IntervalSet.memPoint s x || ys.any (Ival.mem x)) := by
+  induction ys with
+  | nil => intro s hs; exact ⟨hs, fun x => by simp⟩
+  | cons y ys ih =>
+    intro s hs
+    obtain ⟨h1, h2⟩ := add_spec s y hs
+    obtain ⟨i1, i2⟩ := ih _ h1
+    refine ⟨i1, fun x => ?_⟩
+    simp only [List.foldl_cons, i2 x, h2 x, List.any_cons, Bool.or_assoc]
+
 end TelProofs
